@@ -32,8 +32,10 @@ THEOREMS = [
     dict(name="Snow.C17.traj_table_exact", clause="trajectory table, any run length and n >= 2: row c*2m+r is (label, vial, state, t[c*s], X[r][c*s]); all sampled columns exist", strength="full"),
     dict(name="Snow.C17.traj_table_total", clause="trajectory table never raises for n >= 2 when the time vector has one entry per column; at least min(ncols, n-1) samples, the first at t[0]", strength="full"),
     dict(name="Snow.C17.fall_table_exact", clause="Snowfall table: Nrep*N*3 rows; row i*3N+j*N+v is (label v, v, key_i j, stats[i][key][v], seed i)", strength="full"),
-    dict(name="Snow.C17.table_after_run", clause="any history: after run() the table is built from that run's stats (the cached table is dropped)", strength="full"),
-    dict(name="Snow.C17.table_cached", clause="a second to_frame() returns the same table", strength="full"),
+    dict(name="Snow.C17.table_after_run", clause="model: after run() the table is built from that run's stats (definitional in the model - run drops the cache; that the CODE does so rests on the correspondence: Snowfall re-run histories)", strength="by-construction"),
+    dict(name="Snow.C17.table_cached", clause="model: a second to_frame() returns the same table (definitional; code-level fact rests on the correspondence)", strength="by-construction"),
+    dict(name="Snow.C17.stats_table_class", clause="statistics table built with the code's label function: every row carries the name of the class its vial belongs to (label in corner/edge/side/core, group test true, same class as any query name up to synonyms)", strength="full"),
+    dict(name="Snow.C17.traj_table_class", clause="trajectory table built with the code's label function: every row carries the class name of its vial, equal to that vial's label in the statistics table", strength="full"),
     dict(name="Snow.C17.accessors_exact", clause="accessors = values of the rows with matching group, seed and variable, in (seed, variable, vial) order, expressed in the source data", strength="full"),
     dict(name="Snow.C17.old_stride_zero_raises", clause="pre-repair code: fewer columns than n-1 -> ValueError", strength="refutation-of-old-code"),
     dict(name="Snow.C17.long_time_vector_raises", clause="a time vector longer than the state matrix (np.arange rounding) -> ValueError", strength="refutation-of-old-code"),
@@ -337,6 +339,14 @@ def compare(case, impl, model):
         d = _diff(impl["stats_rows"], r["stats"], "stats table")
         if d:
             dis.append(d)
+        nv = case["nv"]
+        if nv[0] >= 2 and nv[1] >= 2:
+            # the label input of the table model = the label functions of Groups.lean (C16), square arrangement
+            lab = drv.call({"op": "c17_labels", "nx": nv[0], "ny": nv[1], "nz": nv[2], "vials": impl["vials"]})
+            if lab["stats"] != labels:
+                dis.append(f"group column of the stats table {labels} vs label function {lab['stats']}")
+            if impl["traj_rows"] and lab["traj"] != tlabels:
+                dis.append(f"group column of the trajectory table {tlabels} vs label function {lab['traj']}")
         if (impl["traj_rows"] is None) != (r["traj"] is None):
             dis.append(f"trajectory table: impl {'None' if impl['traj_rows'] is None else 'table'} vs model "
                        f"{'None' if r['traj'] is None else 'table'}")
